@@ -332,6 +332,77 @@ func dotImported(name string, async bool) *spec.Spec {
 	return b.s
 }
 
+// bindVariadic: a provider whose last parameter is variadic, wrapped in
+// Bind (and Async(Bind(...))); the slice comes from another provider. The
+// call must spread it (args...), whatever wrapper sits around the provider.
+func bindVariadic(name string, async, anyForm bool) *spec.Spec {
+	b := newBuilder(name)
+	sink := b.iface("Sink")
+	if anyForm {
+		// ...any: a slice passed unspread still compiles (one element instead of n)
+		anyT := b.typ(&spec.Type{Kind: spec.KBasic, Name: "any"})
+		anys := b.typ(&spec.Type{Kind: spec.KSlice, Base: anyT})
+		tracer := b.strct("Tracer", "")
+		b.s.Types[tracer].Impl = []int{sink}
+		ptracer := b.ptr(tracer)
+		svc := b.ptr(b.strct("Service", ""))
+		p5 := b.fn("DefaultAttributes", "", nil, []int{anys}, async, false)
+		p6 := b.fn("NewTracer", "", []int{anys}, []int{ptracer}, false, false)
+		b.s.Provs[p6].Variadic = true
+		b.s.Provs[p6].Binds = []int{sink}
+		p7 := b.fn("NewService", "", []int{sink}, []int{svc}, async, false)
+		b.inject("InitializeService", svc, p5, p6, p7)
+		b.s.Features = append(b.s.Features, "variadic-any-provider-under-bind")
+		return b.s
+	}
+	field := b.strct("Field", "")
+	fields := b.typ(&spec.Type{Kind: spec.KSlice, Base: field})
+	logger := b.strct("Logger", "")
+	b.s.Types[logger].Impl = []int{sink}
+	plogger := b.ptr(logger)
+	app := b.ptr(b.strct("App", ""))
+	p1 := b.fn("DefaultFields", "", nil, []int{fields}, async, false)
+	p2 := b.fn("NewLogger", "", []int{fields}, []int{plogger}, async, true)
+	b.s.Provs[p2].Variadic = true
+	b.s.Provs[p2].Binds = []int{sink}
+	p3 := b.fn("NewApp", "", []int{sink}, []int{app}, false, false)
+	p4 := b.fn("NewPlainLogger", "", []int{fields}, []int{plogger}, false, false)
+	b.s.Provs[p4].Variadic = true
+	b.inject("InitializeApp", app, p1, p2, p3)
+	b.inject("InitializeLogger", plogger, p1, p4)
+	b.s.Features = append(b.s.Features, "variadic-provider-under-bind")
+	return b.s
+}
+
+// aliasDeclaredFields: an expanded struct all of whose fields are declared
+// through aliases (type HostAlias = HostName, type RetriesAlias = int64,
+// type LookupAlias = func() Resolver): the same types under another spelling.
+// Consumers ask for the target types.
+func aliasDeclaredFields(name string, async bool) *spec.Spec {
+	b := newBuilder(name)
+	st := b.strct("Settings", "")
+	host := b.nstr("HostName", "")
+	retries := b.typ(&spec.Type{Kind: spec.KBasic, Name: "int64"})
+	res := b.strct("Resolver", "")
+	lookup := b.typ(&spec.Type{Kind: spec.KFunc, Base: res})
+	for _, f := range []struct {
+		n string
+		t int
+	}{{"Host", host}, {"Retries", retries}, {"Lookup", lookup}} {
+		alias := f.n + "Alias"
+		b.s.ExtraDecl += fmt.Sprintf("type %s = %s\n", alias, b.s.Expr(f.t, ""))
+		b.s.Types[st].Fields = append(b.s.Types[st].Fields, spec.Field{Name: f.n, T: f.t, Alias: alias})
+	}
+	pst := b.ptr(st)
+	client := b.ptr(b.strct("Client", ""))
+	p1 := b.fn("LoadSettings", "", nil, []int{pst}, async, true)
+	e := b.expand(pst)
+	p2 := b.fn("NewClient", "", []int{host, retries, lookup}, []int{client}, async, false)
+	b.inject("InitializeClient", client, p1, e, p2)
+	b.s.Features = append(b.s.Features, "expanded-struct-with-alias-declared-fields")
+	return b.s
+}
+
 // injectorNameForms: declarations whose injector name cannot become a
 // package-level function: used twice in one file (0) or in two files of one
 // package (4), equal to a function the user wrote (1), a keyword (2), not an
@@ -417,6 +488,7 @@ func corpusSpecs(prop string) []*spec.Spec {
 		fs = append(fs, setReferenceForms("ks"+prop[1:]+"p", 0, true), setReferenceForms("ks"+prop[1:]+"x", 1, true))
 		fs = append(fs, shadowableNames("kv"+prop[1:]+"s", false), shadowableNames("kv"+prop[1:]+"a", true))
 		fs = append(fs, dotImported("kd"+prop[1:]+"s", false), dotImported("kd"+prop[1:]+"a", true))
+		fs = append(fs, bindVariadic("kb"+prop[1:]+"s", false, false), bindVariadic("kb"+prop[1:]+"a", true, false), bindVariadic("kb"+prop[1:]+"t", false, true), bindVariadic("kb"+prop[1:]+"b", true, true))
 		if prop == "C04" {
 			for k := 0; k < 6; k++ {
 				fs = append(fs, injectorNameForms(fmt.Sprintf("kn04i%d", k), k))
@@ -427,12 +499,14 @@ func corpusSpecs(prop string) []*spec.Spec {
 		}
 		return allInvocationModes(append(fs, append([]*spec.Spec{twinConfigs("k"+prop[1:]+"a", false), sameNamedPackages("k"+prop[1:]+"c"), foreignAliasSecondFile("k"+prop[1:]+"f")}, keywordSweepSpecs("kw"+prop[1:])...)...))
 	case "C09":
-		return []*spec.Spec{setReferenceForms("ks09p", 0, false), setReferenceForms("ks09q", 0, true), setReferenceForms("ks09x", 1, false), setReferenceForms("ks09y", 1, true)}
+		return []*spec.Spec{aliasDeclaredFields("ka09s", false), aliasDeclaredFields("ka09a", true), setReferenceForms("ks09p", 0, false), setReferenceForms("ks09q", 0, true), setReferenceForms("ks09x", 1, false), setReferenceForms("ks09y", 1, true)}
 	case "C02", "C01", "C10", "C11":
 		var fs []*spec.Spec
 		if prop == "C02" || prop == "C01" || prop == "C10" {
 			fs = append(fs, shadowableNames("kv"+prop[1:]+"s", false), shadowableNames("kv"+prop[1:]+"a", true))
 			fs = append(fs, dotImported("kd"+prop[1:]+"s", false), dotImported("kd"+prop[1:]+"a", true))
+			fs = append(fs, aliasDeclaredFields("ka"+prop[1:]+"s", false), aliasDeclaredFields("ka"+prop[1:]+"a", true))
+			fs = append(fs, bindVariadic("kb"+prop[1:]+"s", false, false), bindVariadic("kb"+prop[1:]+"a", true, false), bindVariadic("kb"+prop[1:]+"t", false, true), bindVariadic("kb"+prop[1:]+"b", true, true))
 			fs = append(fs, setReferenceForms("ks"+prop[1:]+"p", 0, false), setReferenceForms("ks"+prop[1:]+"q", 0, true))
 		}
 		if prop == "C10" || prop == "C11" {
